@@ -64,6 +64,8 @@ type Scn struct {
 	DialTimeoutMs int    `json:"dial_timeout_ms,omitempty"` // PeerConfig.DialTimeout; 0 = the harness default of 5 s
 	Timed         bool   `json:"timed_outage,omitempty"`    // the outage lasts longer than DialTimeout (wall clock) but only part of the budget (attempts)
 	IntervalMs    int    `json:"interval_ms,omitempty"`     // timed outages: PeerConfig.RedialInterval; 0 = not set (the configuration default of 100 ms)
+	HookRefuse    string `json:"hook_refuses,omitempty"`    // the PostDial hook refuses redial attempts (server reachable): all | after-k | first-k | alternating
+	HookK         int    `json:"hook_k,omitempty"`          // k of after-k / first-k (counted over all redial invocations of the scenario)
 	Second        bool   `json:"second_session"`            // afterwards a second session is dialed from the same client peer and must survive one loss
 	Detector      string `json:"detector"`                  // reader|writer|both|-
 	DelaySeed     int64  `json:"delay_seed"`                // gate delay perturbation
@@ -95,6 +97,9 @@ func (s Scn) sig() string {
 	}
 	if s.DialTimeoutMs > 0 {
 		sig += fmt.Sprintf("/dial-timeout=%dms", s.DialTimeoutMs)
+	}
+	if s.HookRefuse != "" {
+		sig += fmt.Sprintf("/hook-refuses-%s-%d/losses=%d", s.HookRefuse, s.HookK, s.Losses)
 	}
 	if s.Timed {
 		sig += fmt.Sprintf("/outage-outlasts-dial-timeout-%s/interval=%dms", s.Mode, s.IntervalMs)
@@ -238,7 +243,10 @@ type hookRec struct {
 type dialHook struct {
 	handshake bool
 	userID    string
-	dials     int32 // sessions dialed through this hook (isRedial=false)
+	dials     int32  // sessions dialed through this hook (isRedial=false)
+	refuse    string // refusal policy for redial invocations
+	refuseK   int
+	redials   int32 // redial invocations so far
 	mu        sync.Mutex
 	recs      []hookRec
 }
@@ -247,7 +255,12 @@ func (h *dialHook) Name() string { return "c13-dial-hook" }
 func (h *dialHook) PostDial(sess erpc.PreSession, isRedial bool) *erpc.Status {
 	local := sess.LocalAddr().String()
 	var st *erpc.Status
-	if h.handshake {
+	if isRedial && h.refuse != "" {
+		if hookRefuses(h.refuse, h.refuseK, int(atomic.AddInt32(&h.redials, 1))) {
+			st = erpc.NewStatus(erpc.CodeUnauthorized, "refused by the dial hook", "")
+		}
+	}
+	if st == nil && h.handshake {
 		var reply string
 		st = sess.PreCall("/c13/hello", "hello", &reply)
 		if st.OK() && reply != "welcome:hello" {
@@ -272,6 +285,22 @@ func (h *dialHook) PostDial(sess erpc.PreSession, isRedial bool) *erpc.Status {
 	}
 	return st
 }
+
+// hookRefuses is the refusal policy: j is the 1-based number of the redial invocation in the scenario.
+func hookRefuses(policy string, k, j int) bool {
+	switch policy {
+	case "all":
+		return true
+	case "after-k":
+		return j > k
+	case "first-k":
+		return j <= k
+	case "alternating":
+		return j%2 == 1
+	}
+	return false
+}
+
 func (h *dialHook) snapshot() []hookRec {
 	h.mu.Lock()
 	defer h.mu.Unlock()
@@ -327,10 +356,65 @@ type env struct {
 	frameC2S int64
 	frameS2C int64
 	srvWG    sync.WaitGroup
-	faultIdx int // number of hook records when the last fault was injected
+	faultIdx int  // number of hook records when the last fault was injected
+	nFaults  int  // faults injected so far
+	beyond   bool // dial attempts beyond any budget were observed: tear the client down hard
 }
 
-func (e *env) markFault() { e.faultIdx = len(e.hook.snapshot()) }
+func (e *env) markFault() { e.faultIdx = len(e.hook.snapshot()); e.nFaults++ }
+
+// attemptBound is a logical bound on the dial attempts the forwarder can see with a finite budget n:
+// a redial round makes at most n+1 attempts, and a round is only started by the reader of a lost
+// connection or by an operation that finds the session closed. sound tells whether exceeding it is a
+// violation (only the reader and the harness' own operations start rounds, or no connection can be
+// established any more) or merely a reason to stop (gate scripts on the known stale-reader findings
+// cause extra reconnects; there the bound is ten times wider and only ends the case).
+func (e *env) attemptBound() (bound int, sound bool) {
+	sc := e.sc
+	n := sc.Budget
+	if n <= 0 {
+		return 0, false
+	}
+	e.mu.Lock()
+	ops := len(e.ops)
+	e.mu.Unlock()
+	rounds := e.nFaults + ops + 2
+	m := sc.Refuse
+	if m < 0 {
+		m = 0
+	}
+	clean := sc.Script == "" && (sc.Base == "idle" || sc.Base == "awaiting" || sc.Base == "mid-write")
+	if clean || sc.expectEnd() {
+		return 1 + (n+1)*rounds + m*(e.nFaults+1) + 10, true
+	}
+	return 1 + (n+1)*(10*rounds+10) + m*(e.nFaults+1) + 100, false
+}
+
+// qwait waits for quiescence, but not for ever behind a client that keeps dialing: when the forwarder
+// has seen more attempts than any budget allows, the observation is complete.
+func (e *env) qwait() quiesce.Result {
+	deadline := time.Now().Add(30 * time.Second)
+	for {
+		q := quiesce.Wait(quiesce.Options{Samples: 5, Interval: 40 * time.Millisecond, Timeout: 450 * time.Millisecond})
+		if q.Quiescent {
+			return q
+		}
+		if bound, sound := e.attemptBound(); bound > 0 && e.fw != nil && e.fw.Attempts() > bound && !e.beyond {
+			e.beyond = true
+			a := e.fw.Attempts()
+			if sound {
+				e.violate("redial-beyond-budget", "the forwarder has seen connection attempt number %d and the client is still dialing: with RedialTimes=%d a round has at most %d attempts, and %d fault(s) were injected and %d operation(s) issued, so at most %d attempts can be accounted for; PostDial ran %d times; close notified: %v, status=%s",
+					a, e.sc.Budget, e.sc.Budget+1, e.nFaults, len(e.ops), bound, len(e.hook.snapshot()), closeNotified(e.sess), statusName(e.sess))
+			} else {
+				e.inconclusive("the client keeps dialing (attempt %d seen, more than %d) under a gate script; case stopped", a, bound)
+			}
+			return q
+		}
+		if e.beyond || time.Now().After(deadline) {
+			return q
+		}
+	}
+}
 
 func (e *env) violate(symptom, format string, a ...interface{}) {
 	e.mu.Lock()
@@ -356,10 +440,6 @@ func (e *env) isClient(s erpc.Session) bool {
 		}
 	}
 	return false
-}
-
-func qwait() quiesce.Result {
-	return quiesce.Wait(quiesce.Options{Samples: 5, Interval: 40 * time.Millisecond, Timeout: 30 * time.Second})
 }
 
 func connClass(code int32) bool { return code >= 100 && code <= 199 }
@@ -409,7 +489,7 @@ func (e *env) setup() error {
 		return fmt.Errorf("forwarder: %v", err)
 	}
 	// client
-	e.hook = &dialHook{handshake: sc.Hook == "handshake"}
+	e.hook = &dialHook{handshake: sc.Hook == "handshake", refuse: sc.HookRefuse, refuseK: sc.HookK}
 	if sc.UserID {
 		e.hook.userID = "c13-user-" + e.id
 	}
@@ -920,6 +1000,12 @@ func (e *env) run() {
 	}
 	for round := 0; round < losses; round++ {
 		hooksBefore := len(e.hook.snapshot())
+		if sc.HookRefuse != "" {
+			if e.hookRefusalLoss(round, losses, hooksBefore, id0) {
+				return
+			}
+			continue
+		}
 		if sc.Timed {
 			e.timedOutage(hooksBefore, id0)
 			return
@@ -929,7 +1015,7 @@ func (e *env) run() {
 			return
 		}
 		core.Add("losses_injected", 1)
-		q := qwait()
+		q := e.qwait()
 		if !q.Quiescent {
 			e.inconclusive("watchdog: process not quiescent after loss %d (%s)", round, strings.Join(briefStuck(q), " | "))
 			return
@@ -953,6 +1039,128 @@ func (e *env) run() {
 	if sc.Second {
 		e.secondSession()
 	}
+}
+
+// simulateRound applies the documented rule to one redial round: attempts 1..n+1; the first down
+// attempts find the port closed (no hook invocation); every other attempt reaches the hook, which
+// refuses according to the policy. It returns whether an attempt within the budget is accepted and
+// the number of hook invocations the round makes. *j is the running number of redial invocations.
+func simulateRound(sc Scn, down int, j *int) (survives bool, hooks int) {
+	for a := 1; a <= sc.Budget+1; a++ {
+		if a <= down {
+			continue
+		}
+		*j++
+		hooks++
+		if !hookRefuses(sc.HookRefuse, sc.HookK, *j) {
+			return true, hooks
+		}
+	}
+	return false, hooks
+}
+
+// hookRefusalLoss: the server stays reachable, the dial hook refuses redial attempts by policy. The
+// session survives a loss iff an attempt within the round's budget is accepted; otherwise it ends
+// exactly when the budget is exhausted: after RedialTimes+1 attempts, with no further attempt.
+// It returns true when the scenario is over.
+func (e *env) hookRefusalLoss(round, losses, hooksBefore int, id0 string) bool {
+	sc := e.sc
+	pipe := e.fw.Current()
+	if pipe == nil || pipe.Dead() {
+		e.inconclusive("no live forwarded connection before loss %d", round+1)
+		return true
+	}
+	var inflight []*op
+	if sc.Base == "awaiting" {
+		atomic.StoreInt32(&e.entered, 0)
+		for i := 0; i < sc.NCalls; i++ {
+			inflight = append(inflight, e.start("park", "inflight"))
+		}
+		if !bed.WaitUntil(gateWait, func() bool { return atomic.LoadInt32(&e.entered) >= int32(sc.NCalls) }) {
+			e.inconclusive("parked handlers did not start")
+			return true
+		}
+	}
+	// expected by the documented rule
+	j := 0
+	for _, r := range e.hook.snapshot() {
+		if r.IsRedial {
+			j++
+		}
+	}
+	redialsBefore := j
+	down := 0
+	if sc.Mode == "down" && sc.Refuse > 0 {
+		down = sc.Refuse
+	}
+	survives, wantHooks := simulateRound(sc, down, &j)
+	if down > 0 {
+		m, fw := down, e.fw
+		obs.reset(func(n int) {
+			if n == m {
+				fw.Up()
+			}
+		})
+		if err := e.fw.Down(); err != nil {
+			e.inconclusive("forwarder down: %v", err)
+			return true
+		}
+	}
+	a0 := e.fw.Attempts()
+	e.markFault()
+	pipe.Drop(sc.RST)
+	core.Add("losses_injected", 1)
+	core.Add("hook_refusal_rounds", 1)
+	q := e.qwait()
+	if !q.Quiescent {
+		e.inconclusive("watchdog: process not quiescent after loss %d", round+1)
+		return true
+	}
+	e.judgeOps(inflight, q, !survives)
+	if len(e.viols) > 0 {
+		return true
+	}
+	gotHooks := -redialsBefore
+	for _, r := range e.hook.snapshot() {
+		if r.IsRedial {
+			gotHooks++
+		}
+	}
+	attempts := e.fw.Attempts() - a0
+	when := fmt.Sprintf("loss %d of %d (hook refuses %s/%d, RedialTimes=%d, %d attempt(s) against a closed port first)", round+1, losses, sc.HookRefuse, sc.HookK, sc.Budget, down)
+	if survives {
+		if closeNotified(e.sess) {
+			e.violate("session-ended-with-budget-left", "after %s the close notification has fired (status=%s) although the hook accepts attempt %d of the round's %d; hook invocations in the round: %d, attempts seen by the forwarder: %d",
+				when, statusName(e.sess), down+wantHooks, sc.Budget+1, gotHooks, attempts)
+			return true
+		}
+		if gotHooks > wantHooks {
+			e.violate("redial-beyond-budget", "after %s PostDial(isRedial=true) ran %d times where the round needs %d (the hook accepts its invocation %d)", when, gotHooks, wantHooks, wantHooks)
+			return true
+		}
+		e.judgeReconnected(hooksBefore, id0)
+		return len(e.viols) > 0 || e.incon != ""
+	}
+	// the round's budget is exhausted: the session has ended, exactly then
+	if gotHooks != wantHooks || attempts > sc.Budget+1 {
+		sym := "redial-beyond-budget"
+		if gotHooks < wantHooks {
+			sym = "session-ended-with-budget-left"
+		}
+		e.violate(sym, "after %s the round's budget is exhausted by %d hook invocation(s); PostDial(isRedial=true) ran %d times and the forwarder saw %d attempt(s) (at most %d); close notified: %v, status=%s",
+			when, wantHooks, gotHooks, attempts, sc.Budget+1, closeNotified(e.sess), statusName(e.sess))
+		return true
+	}
+	e.judgeEnded(q)
+	if len(e.viols) == 0 && e.incon == "" {
+		// and it stays ended: nothing dials while the session is idle
+		a1 := e.fw.Attempts()
+		q2 := e.qwait()
+		if q2.Quiescent && e.fw.Attempts() != a1 {
+			e.violate("redial-beyond-budget", "the ended session made %d further connection attempts while idle", e.fw.Attempts()-a1)
+		}
+	}
+	return true
 }
 
 // timedOutage: the connection is lost and the server stays unreachable for longer than DialTimeout
@@ -1031,7 +1239,7 @@ func (e *env) timedOutage(hooksBefore int, id0 string) {
 			time.Sleep(2 * time.Millisecond)
 		}
 	}
-	q := qwait()
+	q := e.qwait()
 	if !q.Quiescent {
 		e.inconclusive("watchdog: process not quiescent after the timed outage (%s)", strings.Join(briefStuck(q), " | "))
 		return
@@ -1114,7 +1322,7 @@ func (e *env) secondSession() {
 	e.markFault()
 	pipe.Drop(sc.RST)
 	core.Add("losses_injected", 1)
-	q := qwait()
+	q := e.qwait()
 	if !q.Quiescent {
 		e.inconclusive("watchdog: process not quiescent after the second session's loss (%s)", strings.Join(briefStuck(q), " | "))
 		return
@@ -1164,7 +1372,7 @@ func (e *env) judgeReconnected(hooksBefore int, id0 string) {
 	for i := 0; i < kCalls; i++ {
 		o := e.start("call", "later")
 		if !waitOp(o, 30*time.Second) {
-			q := qwait()
+			q := e.qwait()
 			if q.Quiescent && !o.isDone() {
 				e.violate("call-hung", "later call %d on the reconnected session is not complete at quiescence; blocked: %v", i, briefStuck(q))
 			} else if !o.isDone() {
@@ -1212,7 +1420,7 @@ func (e *env) judgeReconnected(hooksBefore int, id0 string) {
 		}
 	}
 	if got, ok := e.cli.GetSession(e.sess.ID()); !ok || !sameSession(got, e.sess) {
-		q := qwait()
+		q := e.qwait()
 		if got, ok = e.cli.GetSession(e.sess.ID()); q.Quiescent && (!ok || !sameSession(got, e.sess)) {
 			e.violate("not-indexed", "after successful calls on the redialed session, GetSession(%q) does not return it", e.sess.ID())
 		}
@@ -1243,6 +1451,9 @@ func (e *env) judgeEnded(q quiesce.Result) {
 	if listed {
 		e.violate("still-indexed", "the session is still listed in the client peer's index after it ended")
 	}
+	if sc.HookRefuse == "first-k" {
+		return // the hook accepts from now on: a later operation legitimately brings the session back
+	}
 	e.judgeLater()
 }
 
@@ -1256,7 +1467,7 @@ func (e *env) judgeLater() {
 	}
 	o := e.start(kind, "later")
 	waitOp(o, 30*time.Second)
-	q2 := qwait()
+	q2 := e.qwait()
 	if !q2.Quiescent {
 		e.inconclusive("watchdog: process not quiescent after the later %s", kind)
 		return
@@ -1268,7 +1479,7 @@ func (e *env) judgeLater() {
 	if !connClass(o.Code) {
 		e.violate("later-call-not-conn-error", "a %s issued after the session ended completed with status %d %q instead of a connection error", kind, o.Code, o.Msg)
 	}
-	if sc.Mode != "down" {
+	if sc.Mode != "down" || sc.HookRefuse != "" {
 		extra := e.fw.Attempts() - before
 		core.Max("max_attempts_by_one_later_call", int64(extra))
 		bound := sc.Budget + 1
@@ -1380,7 +1591,10 @@ func (e *env) cleanup() bool {
 	e.cliParkRel.Do(func() { close(e.cliPark) })
 	gates.Reset()
 	obs.reset(nil)
-	if e.fw != nil {
+	if e.fw != nil && e.beyond {
+		// a client that dials beyond every budget: take the network away first, then close it
+		e.fw.Close()
+	} else if e.fw != nil {
 		// the server is reachable again: a session that is still redialing can finish and be closed
 		e.fw.Refuse(0, false)
 		e.fw.Up()
